@@ -126,10 +126,12 @@ func (s *storeManager) CloseStore(name string) error {
 	}
 	kvLogger.Info("close kv store", logger.String("kv", name))
 
-	s.mutex.Lock()
-	defer s.mutex.Unlock()
 	// remove store from cache
+	s.mutex.Lock()
 	delete(s.stores, name)
+	s.mutex.Unlock()
+	// close the store without holding the lock: close waits for the background jobs of the store,
+	// a rollup job looks its target stores up by name(GetStoreByName needs the lock).
 	if err := store.close(); err != nil {
 		return err
 	}
